@@ -159,7 +159,9 @@ func addIP(ip net.IP, d int) net.IP {
 
 func genRangeAround(r *vh.Rand, ip net.IP, fresh func() net.IP) (net.IP, net.IP) {
 	var a, b net.IP
-	switch r.Intn(8) {
+	switch r.Intn(10) {
+	case 8, 9: // around the address
+		a, b = addIP(ip, -r.Intn(3)), addIP(ip, r.Intn(3))
 	case 0:
 		a, b = ip, ip
 	case 1:
